@@ -484,10 +484,14 @@ func (h *Session) DHCPv4Update(mac net.HardwareAddr, ip netip.Addr, name NameEnt
 	host, _ := h.findOrCreateHostWithLock(Addr{MAC: mac, IP: ip})
 	host.UpdateDHCP4Name(name)
 
+	// IP4Offer is read and written under the session lock (DHCPv4IPOffer, SetDHCPv4IPOffer)
+	h.mutex.Lock()
+	host.MACEntry.IP4Offer = host.Addr.IP // hack: keep IP to lookup in notify
+	h.mutex.Unlock()
+
 	host.MACEntry.Row.Lock()
 	defer host.MACEntry.Row.Unlock()
 
-	host.MACEntry.IP4Offer = host.Addr.IP // hack: keep IP to lookup in notify
 	if !host.Online {
 		h.onlineTransition(host)
 	}
